@@ -20,7 +20,7 @@ import (
 const c19 = "C19"
 
 func TestMain(m *testing.M) {
-	vev.Rule(c19, "(a) generated sim.Simulation runs (2..6 honest participants with generated powers, 1..2 instances) in which a harness adversary hands the simulator a decision through its host's ReceiveDecision (or, for an honest participant, through the exported ECInstance.NotifyDecision): valid control, under-powered signer subset (below 2/3 by scaled and by raw power), empty signer set, bad aggregate, wrong phase, wrong round, bottom value, wrong base, non-existing instance, and a fully signed different value for an honest participant; Run must return an error iff the injected decision is invalid or makes honest participants disagree. Non-trivial = any injected decision other than the valid control; distinct by digest of (powers, kind, signer set)")
+	vev.Rule(c19, "(a) generated sim.Simulation runs (2..6 honest participants with generated powers, 1..2 instances) in which a harness adversary hands the simulator a decision through its host's ReceiveDecision (or, for an honest participant, through the exported ECInstance.NotifyDecision): valid control, under-powered signer subset (below 2/3 by scaled and by raw power), empty signer set, bad aggregate, wrong phase, wrong round (signed as such, or stamped onto a decision whose quorum signed the regular DECIDE vote), bottom value, wrong base, non-existing instance, and a fully signed different value for an honest participant; Run must return an error iff the injected decision is invalid or makes honest participants disagree. Non-trivial = any injected decision other than the valid control; distinct by digest of (powers, kind, signer set)")
 	vev.Main(m)
 }
 
@@ -173,6 +173,14 @@ func (in *injector) inject(instance uint64, as gpbft.ActorID) {
 		agg[0] ^= 0xff
 	}
 	j := &gpbft.Justification{Vote: payload, Signers: bitfield.NewFromSet(set), Signature: agg}
+	switch in.kind {
+	case "stamped-wrong-phase":
+		// a full quorum signed the regular DECIDE / round 0 vote; the decision handed over
+		// claims another step (no node would accept it as a finality proof)
+		j.Vote.Phase = gpbft.COMMIT_PHASE
+	case "stamped-wrong-round":
+		j.Vote.Round = uint64(1 + len(signers))
+	}
 	if in.kind == "valid-then-replayed-aggregate" {
 		// first a legitimate decision, then the same signers and aggregate on another value
 		_, _ = in.host.ReceiveDecision(ctx, j)
@@ -196,7 +204,7 @@ func TestC19SimulatorOracle(t *testing.T) {
 		for i := range powers {
 			powers[i] = int64(rapid.IntRange(1, 20).Draw(t, "power"))
 		}
-		kind := rapid.SampledFrom([]string{"valid", "underpowered", "underpowered", "empty-signers", "bad-aggregate", "valid-then-replayed-aggregate", "wrong-phase", "wrong-round", "bottom", "wrong-base", "non-existing-instance", "other-value-for-honest", "none"}).Draw(t, "kind")
+		kind := rapid.SampledFrom([]string{"valid", "underpowered", "underpowered", "empty-signers", "bad-aggregate", "valid-then-replayed-aggregate", "wrong-phase", "wrong-round", "stamped-wrong-phase", "stamped-wrong-round", "bottom", "wrong-base", "non-existing-instance", "other-value-for-honest", "none"}).Draw(t, "kind")
 		var drop []int
 		for i := 0; i < n+1; i++ {
 			if rapid.Bool().Draw(t, "drop") {
